@@ -217,3 +217,34 @@ func (c DevCfg) Summary() string {
 	}
 	return s
 }
+
+// SharedEntropy is a deterministic stand-in for the system entropy source
+// (crypto/rand.Reader) in worlds where several simulated callers draw from
+// it: what it delivers depends only on its seed and on the order of the
+// reads, which the scheduler decides.  All of it is invisible to the race
+// detector (the callers are serialised; to the detector they would look like
+// unsynchronised users of one reader, which the real crypto/rand.Reader
+// tolerates).
+type SharedEntropy struct {
+	state uint64
+	Reads int
+}
+
+// NewSharedEntropy returns a reader seeded with seed.
+func NewSharedEntropy(seed uint64) *SharedEntropy { return &SharedEntropy{state: seed | 1} }
+
+// Read implements io.Reader.
+//
+//go:norace
+//go:noinline
+func (e *SharedEntropy) Read(p []byte) (int, error) {
+	e.Reads++
+	for i := range p {
+		// xorshift64*
+		e.state ^= e.state >> 12
+		e.state ^= e.state << 25
+		e.state ^= e.state >> 27
+		p[i] = byte((e.state * 0x2545f4914f6cdd1d) >> 56)
+	}
+	return len(p), nil
+}
